@@ -14,6 +14,7 @@ import (
 	"sort"
 	"strconv"
 	"strings"
+	"time"
 	"unicode/utf8"
 
 	"github.com/aclements/go-moremath/stats"
@@ -23,6 +24,9 @@ import (
 )
 
 var plainBin = os.Getenv("VERIF_BENCHSTAT")
+
+// pipelineLimit is the wall limit of one in-process run of the real pipeline.
+var pipelineLimit = 12 * time.Second
 
 // defaultsUsed are the flag defaults the in-process mirror runs with (read from the real binary).
 var defaultsUsed Defaults
@@ -126,7 +130,18 @@ func runCase(id int, d Defaults, c *Case) {
 	os.Chdir(dir)
 	defer os.Chdir(cwd)
 	args := append(append([]string(nil), c.Flags...), c.Args...)
-	run := runPipeline(d, args)
+	// the real pipeline under a wall limit: a ToTables that never returns (and may allocate
+	// without bound) cannot be abandoned inside this process, so the child reports and exits;
+	// the parent turns that into `crash <id> in-process: fatal error: hang …` and goes on
+	var run *Run
+	done := make(chan *Run, 1)
+	go func() { done <- runPipeline(d, args) }()
+	select {
+	case run = <-done:
+	case <-time.After(pipelineLimit):
+		fmt.Fprintf(os.Stderr, "fatal error: hang: the real pipeline (Files, Builder.Add, ToTables, ToText/ToCSV) did not return within %v\n", pipelineLimit)
+		os.Exit(2)
+	}
 	run.umAll = unionMeta(c)
 
 	var fileParts []string
